@@ -2,11 +2,14 @@
    Proved on Model/Encoder.v (tied to encoder.go by byte-exact differential execution on every run):
    shape of a sequence, data size, header CRC, file CRC over the records, write-back = wire, and that for a
    14-byte header the file CRC equals the CRC of all preceding bytes of the sequence.  The record-grammar clause
-   (every data record has a live definition whose sizes add up) is decided per run by evaluating the independent
-   specification Model/Wire.v on the implementation's bytes (wf_stream_b), not yet by a theorem: C02_wf_partial. *)
+   (every data record has a live definition whose sizes add up, records cover exactly the declared data size) is a theorem
+   too: C02_wf -- for a 14-byte header the whole output is a well-formed sequence of the independent specification
+   Model/Wire.v, via the invariant "the encoder's LRU slot i holds definition d  =>  the grammar's record length for local
+   number i is the one d announces" (Proofs/GrammarProofs.v).  The same specification is also evaluated on the
+   implementation's bytes on every run (wf_stream_b). *)
 From Coq Require Import NArith List Bool.
 Import ListNotations.
-From Fit Require Import Model.Encoder Model.Wire Proofs.EncoderProofs Proofs.CrcProofs.
+From Fit Require Import Model.Encoder Model.Wire Proofs.EncoderProofs Proofs.CrcProofs Proofs.GrammarProofs Proofs.WfProofs.
 Open Scope N_scope.
 
 Theorem C02_running_size_and_crc : forall c ms st acc out st', encode_messages c st ms acc = Ok (out, st') ->
@@ -23,6 +26,26 @@ Theorem C02_wf_partial : forall c f r, encode_fit c f = Ok r ->
         /\ (hsize = 14 -> skipn 12 hb = le_bytes 2 hcrc /\ hcrc = write 0 (firstn 12 hb))).
 Proof. exact encode_fit_shape. Qed.
 Print Assumptions C02_wf_partial.
+
+(* the whole output is a well-formed sequence of the independent wire specification (14-byte header).  Hypotheses: the output
+   is a byte string and shorter than 4 GiB (the data size is a uint32); C02_wf_instance shows they are satisfiable *)
+Theorem C02_wf : forall c f r, encode_fit c f = Ok r -> (ef_hsize f =? 12) = false ->
+  bytes_ok (er_bytes r) -> len (er_bytes r) < 2 ^ 32 -> exists segs, wf_sequence (er_bytes r) = Some (segs, []).
+Proof. exact encode_fit_wf. Qed.
+Print Assumptions C02_wf.
+
+(* its core: whatever the messages, options and LRU history, the records written for a list of validated messages parse under
+   the record grammar, starting from any table of record lengths that agrees with the encoder's LRU *)
+Theorem C02_records_parse : forall c ms st acc out st' lens, winv c (es_lru st) lens -> Forall msg_ok ms ->
+  encode_messages c st ms acc = Ok (out, st') ->
+  exists lens' segs x, out = acc ++ x /\ winv c (es_lru st') lens' /\
+    forall rest k segs2 rest', parses lens' rest k segs2 rest' -> parses lens (x ++ rest) (len x + k) (segs ++ segs2) rest'.
+Proof. exact encode_messages_parses. Qed.
+Print Assumptions C02_records_parse.
+
+Theorem C02_validated_messages_fit : forall preserve ms vs acc out, validate_all preserve vs ms acc = Ok out -> Forall msg_ok acc -> Forall msg_ok out.
+Proof. exact validate_all_ok. Qed.
+Print Assumptions C02_validated_messages_fit.
 
 (* header with its own correct CRC: the CRC of header ++ records is the CRC of the records alone *)
 Theorem C02_crc_whole_sequence_14 : forall h12 records, bytes_ok h12 ->
